@@ -10,6 +10,10 @@ package main
 //               pointer)
 //   fileFp      for every register file, the frame-pointer indices it is addressed with in
 //               registers.go (`vm.regs.X[vm.fp[i]+Addr(r)]`)
+//   recvStores  the stores of a received value and of the ok flag (OpReceive, OpSelect, the channel
+//               case of OpRange) with the conditions they are under
+//   recvStoreWrappers  the plain functions of registers.go applied to a received value before it
+//               is stored (`vm.setFromReflectValue(b, copyOfElement(u))`): name, signature + body
 //
 // Anything else in the place of these statements is "shape not recognised".
 
@@ -203,6 +207,39 @@ func genGoCopy(repo string) (string, error) {
 		}
 	}
 
+	// a store that does not store the received value itself but the result of a function applied
+	// to it: the function (a plain function of registers.go) and the text of its body
+	type wr struct{ name, body string }
+	var wrappers []wr
+	wrapRe := regexp.MustCompile(`^vm\.setFromReflectValue\(\w+, (\w+)\((\w+)\)\)$`)
+	plainRe := regexp.MustCompile(`^vm\.setFromReflectValue\(\w+, \w+\)$`)
+	for _, r := range recvStores {
+		if !strings.HasPrefix(r.text, "vm.setFromReflectValue(") || plainRe.MatchString(r.text) {
+			continue
+		}
+		m := wrapRe.FindStringSubmatch(r.text)
+		if m == nil {
+			return "", fmt.Errorf("shape not recognised: %s stores %s", r.op, r.text)
+		}
+		seen := false
+		for _, w := range wrappers {
+			seen = seen || w.name == m[1]
+		}
+		if seen {
+			continue
+		}
+		var decl *ast.FuncDecl
+		for _, d := range regf.Decls {
+			if fd, ok := d.(*ast.FuncDecl); ok && fd.Name.Name == m[1] && fd.Recv == nil && fd.Body != nil {
+				decl = fd
+			}
+		}
+		if decl == nil {
+			return "", fmt.Errorf("shape not recognised: %s stores %s: function %s not found in registers.go", r.op, r.text, m[1])
+		}
+		wrappers = append(wrappers, wr{m[1], strings.Join(strings.Fields(swText(fset, decl.Type)+" "+swText(fset, decl.Body)), " ")})
+	}
+
 	var b strings.Builder
 	b.WriteString("namespace ScriggoV.Gen.GoCopy\n\n")
 	b.WriteString("/-- a `copy(nvm.regs.dst, vm.regs.src[vm.fp[fp]+Addr(off.field) : … vm.fp[hiFp] … vm.st[hiSt] …])` of startGoroutine -/\nstructure Copy where\n  dst : String\n  src : String\n  fp : Nat\n  field : String\n  hiFp : String\n  hiSt : String\nderiving DecidableEq, Repr\n\n")
@@ -234,6 +271,13 @@ func genGoCopy(repo string) (string, error) {
 			b.WriteString(",")
 		}
 		fmt.Fprintf(&b, "\n  (%s, %s, %s)", swLeanStr(r.op), swLeanStr(r.ctx), swLeanStr(r.text))
+	}
+	b.WriteString("]\n\n/-- the functions applied to a received value before it is stored (name, signature and body as written) -/\ndef recvStoreWrappers : List (String × String) := [")
+	for i, w := range wrappers {
+		if i > 0 {
+			b.WriteString(",")
+		}
+		fmt.Fprintf(&b, "\n  (%s, %s)", swLeanStr(w.name), swLeanStr(w.body))
 	}
 	b.WriteString("]\n\nend ScriggoV.Gen.GoCopy\n")
 	return b.String(), nil
